@@ -333,10 +333,11 @@ Lemma consts_parts c : registry_consts_ok c = true ->
   well_formed (rc_sentinel c) (rc_ds c) = true /\ well_formed (rc_sentinel c) (rc_flt c) = true
   /\ well_formed (rc_sentinel c) (rc_out c) = true
   /\ r_kind (rc_ds c) = Datasource /\ r_kind (rc_flt c) = Filter /\ r_kind (rc_out c) = Output
-  /\ guards_match c = true /\ rc_lookup_ok c = true /\ rc_entries_ok c = true /\ rc_dispatch c = DispatchCallByName.
+  /\ guards_match c = true /\ rc_lookup_ok c = true /\ rc_entries_ok c = true /\ rc_dispatch c = DispatchCallByName
+  /\ callers_ok c = true.
 Proof.
   unfold registry_consts_ok. intros H.
-  apply andb_true_iff in H as [H Hg]. apply andb_true_iff in H as [H Hk]. apply andb_true_iff in H as [H H3].
+  apply andb_true_iff in H as [H Hcal]. apply andb_true_iff in H as [H Hg]. apply andb_true_iff in H as [H Hk]. apply andb_true_iff in H as [H H3].
   apply andb_true_iff in H as [H H2]. apply andb_true_iff in H as [H H1].
   apply andb_true_iff in H as [H Hd]. apply andb_true_iff in H as [Hl He].
   destruct (r_kind (rc_ds c)), (r_kind (rc_flt c)), (r_kind (rc_out c)); try discriminate.
@@ -348,6 +349,14 @@ Qed.
 Theorem dispatch_is_call c : registry_consts_ok c = true ->
   forall cfg n, dispatch c cfg n = call (rc_sentinel c) (rc_out c) cfg n.
 Proof.
-  intros H cfg n. destruct (consts_parts c H) as [_ [_ [_ [_ [_ [_ [_ [_ [_ Hd]]]]]]]]].
+  intros H cfg n. destruct (consts_parts c H) as [_ [_ [_ [_ [_ [_ [_ [_ [_ [Hd _]]]]]]]]]].
   unfold dispatch. now rewrite Hd.
+Qed.
+
+Theorem callers_known c : registry_consts_ok c = true -> forall f fn, In (f, fn) (rc_callers c) -> In (f, fn) allowed_callers.
+Proof.
+  intros H f fn Hin. destruct (consts_parts c H) as [_ [_ [_ [_ [_ [_ [_ [_ [_ [_ Hc]]]]]]]]]].
+  unfold callers_ok in Hc. rewrite forallb_forall in Hc. specialize (Hc _ Hin). unfold pair_in in Hc.
+  apply existsb_exists in Hc as [[f' fn'] [Hin' He]]. simpl in He. apply andb_true_iff in He as [E1 E2].
+  apply String.eqb_eq in E1, E2. now subst.
 Qed.
